@@ -84,6 +84,25 @@ fn build_urls() -> Vec<U> {
             }
         }
     }
+    // an explicit port: the text directly behind the host is `:8`, not the path (the end of the
+    // hostname and the end of the authority are different positions)
+    let n2 = count_strings_upto(4, 2);
+    let mut port_paths: Vec<String> = (0..n2).map(|i| nth_string(i, &["a", "b", "/", "."])).collect();
+    port_paths.extend(["a.b/a", "b/a.b", "?a", "8/a", ":8/a"].iter().map(|s| s.to_string()));
+    for scheme in ["http", "https"] {
+        for host in ["a.b", "b.a", "a.a.b"] {
+            for p in &port_paths {
+                let url = format!("{}://{}:8/{}", scheme, host, p);
+                let host_start = scheme.len() + 3;
+                let host_end = host_start + host.len();
+                if let Ok(req) = Request::new(&url, "", "script") {
+                    if req.url == url && req.hostname == host {
+                        out.push(U { req, host_start, host_end });
+                    }
+                }
+            }
+        }
+    }
     out
 }
 
@@ -647,7 +666,7 @@ fn check(ctx: &Ctx) -> i32 {
     });
     ctx.finish(
         "model_checking",
-        "every pattern body of length 1..=n over {a,b,.,/,*,^} x 8 anchor modes (none, |p, p|, |p|, ||p, ||p|, |https://a.b+p, |http://b.a/+p|), each against every URL of the universe (2 schemes x 7 hosts with repeated/prefix/suffix labels x optional userinfo x all paths of length <=3 over {a,b,/,.} + separators + upper-case paths); the same modes over {a,A,B,/,*,^} up to a shorter length (case-insensitivity of the rule text); every body over {a,/,*,^,M} containing M for each M of 11 regex / rule-syntax metacharacters in 4 modes against URLs whose path ranges over {a,/,M} (M is a literal, also on the compiled-regex path); a case is non-trivial when the real matcher reports a match; states = rules parsed, transitions = (rule,url) evaluations, traces_validated = evaluations compared with the reference or a relation",
+        "every pattern body of length 1..=n over {a,b,.,/,*,^} x 8 anchor modes (none, |p, p|, |p|, ||p, ||p|, |https://a.b+p, |http://b.a/+p|), each against every URL of the universe (2 schemes x 7 hosts with repeated/prefix/suffix labels x optional userinfo x all paths of length <=3 over {a,b,/,.} + separators + upper-case paths, plus 3 hosts with an explicit port x paths of length <= 2); the same modes over {a,A,B,/,*,^} up to a shorter length (case-insensitivity of the rule text); every body over {a,/,*,^,M} containing M for each M of 11 regex / rule-syntax metacharacters in 4 modes against URLs whose path ranges over {a,/,M} (M is a literal, also on the compiled-regex path); a case is non-trivial when the real matcher reports a match; states = rules parsed, transitions = (rule,url) evaluations, traces_validated = evaluations compared with the reference or a relation",
         &[
             "regex crate is the oracle for full-regex rules",
             "URLs are ASCII, lower-case host, non-empty path (the property's domain)",
